@@ -114,6 +114,7 @@ package mempool
 
 //@ func (*Pool).Add
 //@ opt callbacks pure
+//@ opt tier thorough
 //@ requires (data == nil || len(data) >= 1) && mapsOK(mp) && fee != nil && wfTx(t) && transaction.wfAttrs(t) && wfPoolTx(mp) && wfConflicts(mp) && wfItems(mp) && wfCount(mp) && wfOracle(mp) && len(mp.verifiedTxes) <= mp.capacity
 //@ modifies mp.verifiedTxes, elems(item), mp.verifiedMap, mp.fees, mp.conflicts, mp.oracleResp, elems(util.Uint256)
 //@ ensures[atomic] result != nil ==> unchanged(mp.verifiedTxes) && unchanged(mp.verifiedMap) && unchanged(mp.conflicts) && unchanged(mp.oracleResp)
